@@ -170,6 +170,17 @@ class Universe:
                 chance = rnd.choice(self.plain)
             self.effects.append(ch.mkeffect(category_id=cat, modifiers=tuple(mods), resist_attr_id=resist,
                                             fitting_usage_chance_attr_id=chance))
+        # booster side effects: passive effects with a fitting-usage-chance attribute
+        self.side_effects = []
+        for _ in range(3):
+            ti = rnd.randrange(0, n - 1)
+            si = rnd.randrange(ti + 1, n)
+            m = DogmaModifier(affectee_filter=ModAffecteeFilter.item,
+                              affectee_domain=rnd.choice([ModDomain.self, ModDomain.ship, ModDomain.character]),
+                              affectee_attr_id=ids[ti], operator=rnd.choice([ModOperator.post_percent, ModOperator.mod_add]),
+                              aggregate_mode=ModAggregateMode.stack, affector_attr_id=ids[si])
+            self.side_effects.append(ch.mkeffect(category_id=EffectCategoryId.passive, modifiers=(m,),
+                                                 fitting_usage_chance_attr_id=rnd.choice(self.plain)))
         self.online = ch.mkeffect(effect_id=int(EffectId.online), category_id=EffectCategoryId.online)
         self.buff_effects = []
         if self.fleet:
@@ -254,6 +265,11 @@ class Universe:
         cand = [e for e in effs if e.category_id in (EffectCategoryId.active, EffectCategoryId.target)]
         de = rnd.choice(cand) if cand and rnd.random() < 0.8 else None
         attrs = {a: rnd.choice(self.vals) for a in rnd.sample(self.plain, rnd.randint(1, len(self.plain)))}
+        if kind == 'booster':
+            effs = effs + rnd.sample(self.side_effects, rnd.randint(2, 3))
+            for e in effs:
+                if e.fitting_usage_chance_attr_id is not None:
+                    attrs[e.fitting_usage_chance_attr_id] = rnd.choice([0.25, 0.5, 0.75])
         if kind in ('ship', 'drone') and self.p.get('proj_bias'):
             for ra in self.resist_attrs:
                 attrs.setdefault(ra, rnd.choice([0.5, 0.25, 1, 0, 2]))
